@@ -354,6 +354,7 @@ int main(int argc, char** argv) {
   { void* fr[4]; backtrace(fr, 4); }    // let the unwinder do its one-time allocations now
   std::string modes = ARGS.opt("--modes", "alloc,abandon");
   std::string only = ARGS.opt("--only", "");
+  std::string skip = ARGS.opt("--skip", "");
   int chunk = atoi(ARGS.opt("--chunk", "48").c_str());
   verbose = ARGS.has("--verbose");
   bool want_alloc = modes.find("alloc") != std::string::npos, want_abn = modes.find("abandon") != std::string::npos,
@@ -376,6 +377,7 @@ int main(int argc, char** argv) {
     if (!replay_scn.empty()) { if (all[i].name == replay_scn) SC.push_back(all[i]); continue; }
     if (!ARGS.thorough() && all[i].tier > 0) continue;
     if (!only.empty() && all[i].name.find(only) == std::string::npos) continue;
+    if (!skip.empty() && all[i].name.find(skip) != std::string::npos) continue;
     SC.push_back(all[i]);
   }
   { std::set<std::string> names; for (size_t i = 0; i < all.size(); ++i) if (!names.insert(all[i].name).second) {
